@@ -103,8 +103,15 @@ def add_header_to_file(
             path.touch()
             comment_style = EmptyCommentStyle
 
-    with open(path, "r", encoding="utf-8", newline="") as fp:
-        text = fp.read()
+    try:
+        with open(path, "r", encoding="utf-8", newline="") as fp:
+            text = fp.read()
+    except UnicodeDecodeError:
+        out.write(
+            _("Error: '{path}' could not be decoded as UTF-8").format(path=path)
+        )
+        out.write("\n")
+        return 1
 
     # Ideally, this check is done elsewhere. But that would necessitate reading
     # the file contents before this function is called.
